@@ -231,6 +231,19 @@ def run(argv):
         for ln in open(results_path):
             done.add(json.loads(ln)["id"])
     todo = [m for m in ms if m["id"] not in done and (only is None or only in m["file"])]
+    if "--rerun" in argv:
+        # second pass over the mutants a first pass gave the stated outcome (regression check after the checks changed)
+        want = argv[argv.index("--rerun") + 1].split(",")
+        first = {}
+        for ln in open(results_path):
+            r = json.loads(ln)
+            first[r["id"]] = r["outcome"]
+        results_path = os.path.join(WORK, "results2.jsonl")
+        done2 = set()
+        if os.path.exists(results_path):
+            for ln in open(results_path):
+                done2.add(json.loads(ln)["id"])
+        todo = [m for m in ms if first.get(m["id"]) in want and m["id"] not in done2 and (only is None or only in m["file"])]
     if limit:
         todo = todo[:limit]
     print(len(todo), "mutants to run on", jobs, "slots", flush=True)
